@@ -131,12 +131,28 @@ def run(rep, pdb, tier):
             rep.add("co-index/%s" % tr, "target and source of each contribution use the same index", a.index == i and b.index == ib and pa and pb, a.node, "")
             # guards: i <= own degree
             fa, fb = facts(ctx, a.node), facts(ctx, b.node)
-            ga = norm_cmp("<=", i, DEG0) in fa
-            gb = norm_cmp("<=", ib, DEG1) in fb
+            from .guards import prove_le as _ple
+            ga = norm_cmp("<=", i, DEG0) in fa or _ple(i, DEG0, fa)
+            gb = norm_cmp("<=", ib, DEG1) in fb or _ple(ib, DEG1, fb)
             split = a.loops[0] is not b.loops[0]
             # allocation: max(deg, deg')+1 zeros, loop 0..=degree
             alloc = [e for e in effs if e.kind == "assign" and e.target == tgt]
             dvar = r[2]
+            if not alloc and not split and tgt[0] == "var":
+                # one loop over a local buffer `vec![zero; max + 1]` (`for (i, c) in buf.iter_mut().enumerate()`) that Polynomial::new wraps
+                pv = value_before(ctx, tgt, a.loops[0])
+                tl_ = fn["body"].get("expr")
+                if pv is not None and pv[0] == "call" and str(pv[1]).endswith("from_elem") and len(pv) == 4 and tl_ is not None and ctx.term(tl_) == ("call", "%s::new" % PT, tgt):
+                    class _Al:
+                        pass
+                    al_ = _Al()
+                    al_.value, al_.node = pv, ctx.binds[tgt[1]].node
+                    alloc = [al_]
+                    end_ = r[2] if not r[3] else lin_add(r[2], num(1))
+                    if end_ in (LEN(tgt), pv[3]):
+                        # 0..len(buffer) is 0..=max degree
+                        dvar = lin_add(pv[3], num(-1))
+                        r = (r[0], r[1], dvar, True, r[4])
             if split and alloc and alloc[0].value[0] == "call" and len(alloc[0].value) == 4:
                 dvar = lin_add(alloc[0].value[3], num(-1))      # separate loops over 0..=own degree: the allocation carries the maximum
             okl = len(alloc) == 1 and alloc[0].value[0] == "call" and str(alloc[0].value[1]).endswith("from_elem") and is_zero_term(alloc[0].value[2]) and \
@@ -151,6 +167,29 @@ def run(rep, pdb, tier):
                 # the replacement is guarded by degree < other degree
                 asg = [x for x in ctx.assigns.get(dvar[1], [])] if dvar[0] == "var" else []
                 gmax = len(asg) == 1 and any(f[0] == "cmp" and f[1] == "<" and f[2] == dvar and f[3] == DEG1 for f in facts(ctx, asg[0]))
+            if not (okl and ismax and gmax and ga and gb) and split and tgt[0] == "var":
+                # a local coefficient buffer `vec![zero; max(deg, deg') + 1]` filled by one loop per operand over that operand's own
+                # coefficients (`for (s, &t) in buf.iter_mut().zip(&p.coeffs)`), then wrapped by Polynomial::new
+                pv = value_before(ctx, tgt, a.loops[0])
+                n_ = pv[3] if pv is not None and pv[0] == "call" and str(pv[1]).endswith("from_elem") and len(pv) == 4 and is_zero_term(pv[2]) else None
+                dm = lin_add(n_, num(-1)) if n_ is not None else None
+                is_max = dm is not None and dm[0] == "call" and str(dm[1]).endswith("max") and len(dm) == 4 and {dm[2], dm[3]} == {DEG0, DEG1}
+
+                def own(rr, C):
+                    if rr is None or rr[1] != num(0) or rr[4]:
+                        return False
+                    end = lin_add(rr[2], num(1)) if rr[3] else rr[2]
+                    if end == LEN(C):
+                        return True
+                    return end[0] == "call" and str(end[1]).endswith("min") and len(end) == 4 and LEN(C) in (end[2], end[3]) and \
+                        (LEN(tgt) in (end[2], end[3]) or n_ in (end[2], end[3]))
+                tail = fn["body"].get("expr")
+                wrapped = tail is not None and ctx.term(tail) in (("call", "%s::new" % PT, tgt),)
+                if not wrapped:
+                    used = [x for x in effs if x.kind == "assign" and x.value == tgt and x.target[0] == "field" and x.target[2] == "coeffs"]
+                    wrapped = len(used) == 1 and tail is not None and ctx.term(tail) == used[0].target[1]
+                if is_max and own(r, CO0) and own(rb_, CO1) and wrapped:
+                    okl = ismax = gmax = ga = gb = True
             rep.add("length/%s" % tr, "the result has max(deg, deg')+1 coefficients (zeros), the loop covers 0..=that degree, and each operand contributes only for i <= its own degree",
                     okl and ismax and gmax and ga and gb, alloc[0].node if alloc else fn["body"],
                     "alloc degree+1 zeros & loop 0..=degree=%s degree is max of both=%s guards i<=own degree=%s/%s" % (okl, ismax and gmax, ga, gb))
@@ -229,7 +268,9 @@ def run(rep, pdb, tier):
                 # a local buffer `let mut out = vec![zero; n]` that becomes the product's coefficient vector
                 pv = value_before(ctx, tgt, e.loops[0])
                 used = [x for x in effs if x.kind == "assign" and x.value == tgt and x.target[0] == "field" and x.target[2] == "coeffs"]
-                if pv is not None and len(used) == 1:        # (a moved Vec cannot be written afterwards: the move follows the loops)
+                tl_ = fn["body"].get("expr")
+                wrapped_ = tl_ is not None and ctx.term(tl_) == ("call", "%s::new" % PT, tgt)
+                if pv is not None and (len(used) == 1 or wrapped_):        # (a moved Vec cannot be written afterwards: the move follows the loops)
                     alloc = [pv]
                     anode = [ctx.binds[tgt[1]].node]
             okl = len(alloc) == 1 and alloc[0][0] == "call" and str(alloc[0][1]).endswith("from_elem") and is_zero_term(alloc[0][2])
